@@ -78,7 +78,8 @@ def build():
                exc_ensures=["NODE_REGISTRY == old(NODE_REGISTRY)"],
                ensures=["reg_get(old(NODE_REGISTRY), result.id) is None",
                         "NODE_REGISTRY == reg_set(old(NODE_REGISTRY), result.id, result)",
-                        "cls_of(result) == cls_of(obj)", "result != obj"]))
+                        "cls_of(result) == cls_of(obj)", "result != obj", "result.id == fresh_id_in(old(NODE_REGISTRY), result)"]))
+    world.spec_fns["fresh_id_in"] = lambda r, n: __import__("pyvc.values", fromlist=["VStr"]).VStr(newid(r.term, nv.ref(n)))
 
     def call(m, func, args, kwargs, node):
         if isinstance(func, VPy) and func.obj == ("builtin", "replace"):
@@ -92,7 +93,10 @@ def build():
                exc_ensures=["NODE_REGISTRY == old(NODE_REGISTRY)"],
                ensures=["reg_get(unreg1(old(NODE_REGISTRY), self), result.id) is None",
                         "NODE_REGISTRY == reg_set(unreg1(old(NODE_REGISTRY), self), result.id, result)",
-                        "cls_of(result) == cls_of(self)", "result != self"]))
+                        "cls_of(result) == cls_of(self)", "result != self",
+                        "result.id == fresh_id_in(unreg1(old(NODE_REGISTRY), self), result)"],
+               note="fresh_id_in(R, n) is the id a construction of n assigns under registry R (the __post_init__ rule, proved under C01/C03: the digest when free, else a free "
+                    "collision-suffixed key); replace constructs under the registry with the original absent"))
     # ---- unique ids --------------------------------------------------------------------------------
     A(Contract(f"{M}:_get_next_unique_id", params={"id_": "str"}, returns="str", globals=G, props=P3,
                ensures=["reg_get(NODE_REGISTRY, result) is None",
